@@ -101,6 +101,25 @@ class NegLab:
             return None, None
         return (self.identity == "true"), None
 
+    def _user_ok(self, event):
+        self.user_id_calls += 1
+        return True, None
+
+    def apply_idhist(self, identity, hist):
+        """The EVT_USER_ID slot of the running server after a configuration history: started with hist["start"] bound
+        ("none" | "ok" accept-all | "H" the handler giving the case's verdict), then bind / unbind calls."""
+        hs = {"H": self._user_id, "ok": self._user_ok}
+        cur = self.server.get_handlers(evt.EVT_USER_ID)[0]
+        if cur in hs.values():
+            self.server.unbind(evt.EVT_USER_ID, cur)
+        self._uid_bound = False
+        self.identity = identity
+        if hist["start"] != "none":
+            self.server.bind(evt.EVT_USER_ID, hs[hist["start"]])
+        for op, h in hist["ops"]:
+            (self.server.bind if op == "bind" else self.server.unbind)(evt.EVT_USER_ID, hs[h])
+        self.user_id_calls = 0
+
     def configure(self, supported, mode="normal", require_calling=(), require_called=False, identity=None, inplace=False):
         cxs = []
         for s in supported:
